@@ -53,6 +53,7 @@ def run(ctx):
     ctx.notes["mutants_per_action"] = per
     ctx.notes["panics_seen_while_rejecting"] = panics      # a panic delivers nothing: reported by C09, not a C08 verdict
     ctx.cov["evaluations"] = mutants
+    ctx.cov["exhaustive"] = ctx.cov["exhaustive"] and stride == 1    # quick samples the byte positions of long regions
     ctx.assumptions += ["Mac and Enc are uninterpreted in the model: no forgery, a changed cipher text decrypts to garbage",
                         "an OPN chunk that is self-consistently signed by another application (its own certificate in the "
                         "header) is a new peer, not a modified chunk: whether that certificate is trusted is decided above the "
